@@ -367,6 +367,39 @@ func (e *Exec) concretize(t *Term, what string) uint64 {
 	}
 }
 
+// fewValues reports whether t has at most k feasible values under the path
+// condition.  The answer is recorded as a (non-forking) decision so that replays
+// and other workers take the same course.
+func (e *Exec) fewValues(t *Term, k int) bool {
+	if t.IsConst() {
+		return true
+	}
+	if e.pos < len(e.decisions) {
+		d := e.decisions[e.pos]
+		e.pos++
+		return d.val
+	}
+	few := true
+	var block []*Term
+	for i := 0; i <= k; i++ {
+		v, m := e.sol.CheckModel([]*Term{t}, block...)
+		if v == Unsat {
+			break
+		}
+		if v != Sat || m[t] == nil {
+			e.end("inconclusive", "enumerating values at "+e.curSite())
+		}
+		if i == k {
+			few = false
+			break
+		}
+		block = append(block, e.tb.BNot(e.tb.Eq(t, e.tb.BV(m[t], t.w))))
+	}
+	e.decisions = append(e.decisions, decision{val: few})
+	e.pos++
+	return few
+}
+
 func (e *Exec) fresh(name string, w int) *Term {
 	e.varSeq[name]++
 	n := e.varSeq[name]
@@ -924,12 +957,14 @@ func (e *Exec) globalObj(g *ssa.Global) *Obj {
 	o := e.newObj(e.zero(elem), elem, g.String())
 	o.glob = g
 	e.globals[g] = o
+	defer func() {
+		e.inInit = was
+		if !was {
+			e.snapshotInit()
+		}
+	}()
 	if g.Pkg != nil {
 		e.eng.ensureInit(e, g.Pkg)
-	}
-	e.inInit = was
-	if !was {
-		e.snapshotInit()
 	}
 	return o
 }
